@@ -103,6 +103,7 @@ PROVED_DETAIL = {
     "C02_parse_render_month_dd_yyyy": "Month DD, YYYY x {date only, ' HH:MM', ' HH:MM:SS'}, year >= 100",
     "C02_parse_render_compact": "YYYYMMDD, YYYYMMDD{T, space}HHMM[SS], YYYYMMDDHHMM[SS], YYYYMMDDTHH:MM[:SS] (9 templates)",
     "C02_parse_render_12h_hm": "YYYY-MM-DD hh:MM[ ]AM|PM", "C02_parse_render_12h_hms": "YYYY-MM-DD hh:MM:SS[ ]AM|PM",
+    "C02_parse_render_12h_h": "YYYY-MM-DD hh[ ]AM|PM (hour only)",
     "C02_parse_render_mon_dd_yyyy_12h": "Mon DD, YYYY hh:MM[ ]AM|PM, year >= 100",
     "C02_parse_render_ctime": "ctime(): 'Www Mon DD HH:MM:SS YYYY', day space-padded, year >= 100",
     "C02_parse_render_rfc_named": "RFC 2822 'Www, DD Mon YYYY HH:MM:SS GMT|UTC', year >= 100",
@@ -151,6 +152,8 @@ def theorem_for(t):
             return "C02_parse_render_12h_hm"
         if D == "DIso" and J == "JSpace" and T == "T12HMS":
             return "C02_parse_render_12h_hms"
+        if D == "DIso" and J == "JSpace" and T == "T12H":
+            return "C02_parse_render_12h_h"
         if D == "DMonDY" and J == "JSpace" and T == "T12HM":
             return "C02_parse_render_mon_dd_yyyy_12h"
         if (D in ("DIso", "DSlashYMD") and jt == ("JNone", "TNone")) or (D == "DNone" and J == "JNone" and T in ("THM", "THMS")) \
